@@ -164,6 +164,7 @@ func buildStates(c *xs.Ctx, w *world) []*state {
 		cd.hAlreadyReceivedZero = h("z0")
 		cd = finish(s, &cand{Type: tUserFirst, valid: gen(n, recv(u6, w.named["t6"].Hash)), owner: ops.Users[u6]})
 		cd.hOtherRecipient, cd.hReceiveBlock = h("s3"), h("r0")
+		finish(s, &cand{Type: tUserCall, valid: gen(n, ops.Calls["fuse"](ops.Op{A: u4, B: u2, V: 10})), owner: ops.Users[u4]})
 		cd = contractCand(s, n, tContractRecv, "c1")
 		cd.hOtherRecipient, cd.hSecondPending, cd.hReceiveBlock = h("c2"), h("c1b"), h("r0")
 		cd = contractCand(s, n, tContractSend, "c2")
@@ -365,7 +366,35 @@ func (rn *runner) submit(cd *cand, ms []mutation, mode int) {
 			r.Add("accepted_single_mutations", id.key())
 		}
 	}
+	// "only if its hash matches its content": the block the node now holds at that height (acceptance may rewrite fields,
+	// e.g. call data into its canonical encoding) is held under the hash of its own content, the hash it was submitted under
+	var held *nom.AccountBlock
+	for _, pb := range rn.n.PoolBlocks() {
+		if pb.Address != judged.Address || pb.Height != judged.Height {
+			continue
+		}
+		held = pb
+		r.Count("held_blocks_rehashed", 1)
+		if got := ownHash(pb); got != pb.Hash || pb.Hash != judged.Hash {
+			r.Violate("C03:accepted-block-is-held-under-a-hash-that-is-not-the-hash-of-its-content", fmt.Sprintf("state %s, %s regime: candidate %s (%s, %s) submitted under hash %v is held as a block with Hash field %v whose content hashes to %v",
+				rn.st.Name, regimeName(rn.enf), cd.Type, mutsString(ms), modes[mode], judged.Hash, pb.Hash, got), id)
+			r.Count("accepted_invalid", 1)
+			rn.fresh()
+			return
+		}
+	}
 	v := rn.st.led.valid(judged, rn.enf, rn.st.expected, tolerance{})
+	if !v.ok && held != nil && types.IsEmbeddedAddress(judged.ToAddress) && !bytes.Equal(held.Data, judged.Data) {
+		// a call whose data is another encoding of the same arguments (trailing bytes): the node rewrites Data into the
+		// canonical encoding before it checks the hash, and holds the canonical block (verified above: held under the hash
+		// of its content, which is the hash the candidate came with). What was accepted is that block: judge it.
+		canon := deepCopyKeepAmount(judged)
+		canon.Data = append([]byte{}, held.Data...)
+		if v2 := rn.st.led.valid(canon, rn.enf, rn.st.expected, tolerance{}); v2.ok {
+			r.Count("accepted_as_the_canonical_call", 1)
+			v = v2
+		}
+	}
 	if !v.ok {
 		key := rn.rootCause(judged, id, v)
 		what := fmt.Sprintf("state %s, %s regime: candidate %s (%s, %s) was accepted into the pool but the statement's predicate fails: %s",
@@ -621,7 +650,7 @@ func init() {
 				panic(fmt.Sprintf("C03 vacuity guard: accepted=%d rejected=%d accepted_mutated=%d reasons=%d fields=%d", m.Counters["accepted"], m.Counters["rejected"],
 					m.Counters["accepted_mutated"], len(m.Sets["rejection_reasons"]), len(m.Sets["fields"])))
 			}
-			for _, t := range []string{tUserSend, tUserReceive, tUserFirst, tContractRecv, tContractSend} {
+			for _, t := range []string{tUserSend, tUserCall, tUserReceive, tUserFirst, tContractRecv, tContractSend} {
 				if m.Counters["accepted:"+t] == 0 {
 					panic("C03 vacuity guard: no accepted candidate of type " + t)
 				}
